@@ -6,7 +6,7 @@ import (
 )
 
 //verif:witness H_C20_writethrough end
-//verif:bound C20 all sync logger -> file / rolling-file / console appender, text and JSON layout, with and without a logger-level layout; 1..3 acknowledged calls; the target's content is inspected immediately after each call returns (every crash point between acknowledged calls)
+//verif:bound C20 all sync logger -> file / rolling-file / console appender, and the rolling-file logger in synchronous mode (3 buffer-full policies, which must not matter), text and JSON layout, with and without a logger-level layout; 1..3 acknowledged calls; the target's content is inspected immediately after each call returns (every crash point between acknowledged calls)
 //verif:assume C20 os.File.Write hands its bytes to the kernel before returning (no user-space buffering in os.File: standard-library contract); what the kernel does afterwards is not modelled
 //verif:assume C20 goroutine interleavings of several writers are covered by C03; here calls are issued one at a time
 //verif:engine-only H_C20_writethrough
@@ -25,8 +25,20 @@ func H_C20_writethrough() {
 	sink := &vSink{}
 	saved := Stdout
 	defer func() { Stdout = saved }()
-	kind := vChoose("appender", 3)
+	kind := vChoose("appender", 4)
+	var rl *RollingFileLogger
 	switch kind {
+	case 3:
+		// the rolling-file LOGGER in synchronous mode, whatever its (then irrelevant) buffer settings
+		rl = &RollingFileLogger{LoggerBase: LoggerBase{Name: "r", Level: LevelRange{MinLevel: NoneLevel, MaxLevel: MaxLevel}}, FileDir: dir, FileName: "r",
+			Rotation: TimeRotation{Interval: time.Hour}, MaxAge: 168, AsyncWrite: false, BufferSize: 100, BufferFullPolicy: BufferFullPolicy(vChoose("policy", 3))}
+		if vChoose("loggerLayout", 2) == 1 {
+			rl.Layout = lay
+		}
+		if err := rl.Start(); err != nil {
+			panic(err)
+		}
+		kind = 1
 	case 0:
 		app = &FileAppender{Layout: lay, FileDir: dir, FileName: "f.log"}
 	case 1:
@@ -35,15 +47,20 @@ func H_C20_writethrough() {
 		Stdout = sink
 		app = &ConsoleAppender{Layout: lay}
 	}
-	if err := app.Start(); err != nil {
-		panic(err)
+	tag := &Tag{tag: "_t_x"}
+	if rl != nil {
+		tag.logger = rl
+	} else {
+		if err := app.Start(); err != nil {
+			panic(err)
+		}
+		logger := &SyncLogger{LoggerBase: LoggerBase{Name: "s", Level: LevelRange{MinLevel: NoneLevel, MaxLevel: MaxLevel}}}
+		if vChoose("loggerLayout", 2) == 1 {
+			logger.Layout = lay
+		}
+		logger.AppenderRefs.AppenderRefs = []*AppenderRef{{Appender: app, Level: LevelRange{MinLevel: NoneLevel, MaxLevel: MaxLevel}}}
+		tag.logger = logger
 	}
-	logger := &SyncLogger{LoggerBase: LoggerBase{Name: "s", Level: LevelRange{MinLevel: NoneLevel, MaxLevel: MaxLevel}}}
-	if vChoose("loggerLayout", 2) == 1 {
-		logger.Layout = lay
-	}
-	logger.AppenderRefs.AppenderRefs = []*AppenderRef{{Appender: app, Level: LevelRange{MinLevel: NoneLevel, MaxLevel: MaxLevel}}}
-	tag := &Tag{tag: "_t_x", logger: logger}
 	n := 1 + vChoose("calls", 3)
 	markers := [3]string{"first-line", "second-line", "third-line"}
 	for i := 0; i < n; i++ {
@@ -76,7 +93,11 @@ func H_C20_writethrough() {
 			vAssert(vContains(content, markers[j]), "every-acknowledged-line-is-in-the-target")
 		}
 	}
-	app.Stop()
+	if rl != nil {
+		rl.Stop()
+	} else {
+		app.Stop()
+	}
 	vReach("end")
 }
 
